@@ -111,6 +111,7 @@ type peerA struct {
 	defer_  bool // the script will return it in a later step
 	retSpecUsed *retSpec
 	fwdOf   *peerQ // this is the Conn looping one of the peer's calls back
+	bootExport *peerExport
 }
 
 // peerEmbargo is a peer-initiated sender-loopback disembargo.
@@ -145,6 +146,7 @@ type appCall struct {
 	cancel   func()
 	want     *wantRet
 	expectFail bool
+	busy       int32 // an asynchronous sender is still using the answer
 	relT0, relT1 int64
 	// result bookkeeping
 	resUID uint64
@@ -218,6 +220,9 @@ type solo struct {
 
 	rounds []*embargoRound
 	appBoots      []*appBoot
+	handleBoundT  map[int]int64
+	busyHandle    map[int]*appCall
+	deadHandle    map[int]bool
 	pexpAll       map[uint32]*peerExport
 	boundArg      map[int]bool
 	argHandles    []*rpcbench.Handle
